@@ -240,12 +240,61 @@ def run_scenario(chk, sc, cfgseed, ndims):
     return None
 
 
+def option_sets_phase(chk):
+    """MenuOpts.tla: every subset of menu's options on one generated plotfile; each display the set asks for must be in the output,
+    line for line as that display alone prints it (multiset of non-blank lines)."""
+    from amr_kitchen.menu import Menu
+    from collections import Counter
+    r = chk.add_tlc(tlc.run("MenuOpts", {"INIT": "Init", "NEXT": "Next", "CONSTANTS": {"Dispatch": '"independent"'},
+                                         "INVARIANTS": ["EveryDisplayShown", "Emit"]}, workers=1, timeout=300), "menu option sets (MenuOpts)")
+    if r.violated:
+        chk.note_drift("TLC: %s violated in MenuOpts.tla" % r.violated)
+    if not r.emitted:
+        raise core.MachineryError("MenuOpts emitted nothing")
+    rng = random.Random(chk.seed + 18)
+    cfg_ = gamma.Config.draw(rng, ndims=3, payload="tame")
+    fields = ["density", "temp", "Y(H2)", "Y(O2)", "x_velocity", "foo", "mag_vort"]
+    ap = gamma.make_ap("A", fields, [[1, 2], [1]], None, ndims=3)
+    d = os.path.join(chk.tmp(), "plt00020")
+    os.makedirs(os.path.dirname(d))
+    gamma.write_plotfile(d, ap, cfg_)
+
+    def show(o):
+        kw = dict(min_max="min_max" in o, finest_lv="finest_lv" in o, description="description" in o, every="every" in o,
+                  has_var=["temp", "Y(O2)"] if "has_var" in o else None)
+        return Counter(ln.strip() for ln in capture(lambda: Menu(plt_file=d, **kw)).split("\n") if ln.strip())
+    groups = {"table": {"min_max", "finest_lv"}, "search": {"has_var"}, "described-list": {"description", "every"}, "plain-list": set()}
+    for sc in sorted(r.emitted, key=core.jdump):
+        o = set(sc["opts"])
+        v = None
+        try:
+            whole = show(o)
+            for disp in sc["required"]:
+                alone = show(o & groups[disp])
+                missing = alone - whole
+                # lines common to every display (banners, the plotfile's name) do not identify one: judged on the rest
+                if sum(missing.values()) > 0:
+                    v = "menu with options %r does not show the %s as the option(s) %r alone print it: %d line(s) missing, e.g. %r" % (
+                        sorted(o), disp, sorted(o & groups[disp]), sum(missing.values()), sorted(missing)[0][:100])
+                    break
+        except Exception as e:
+            v = "menu with options %r raised %s: %s" % (sorted(o), type(e).__name__, str(e)[:150])
+        sig = util.sig_str("option-set", sorted(o))
+        chk.executed(sig, len(sc["required"]) > 1, sample={"opts": sorted(o), "required": sc["required"]})
+        chk.traces += 1
+        if v:
+            chk.violation(sig, v, {"option_set": sorted(o)})
+
+
 def run(chk, replay):
     chk.rule = ("scenarios of HeaderTools.tla emitted by TLC (duplicate-free field lists over known, multi-field-class, species and "
                 "unknown names x menu mode), replayed on generated 2-D / 3-D plotfiles with 1..3 levels, negative / huge / infinite "
                 "times and infinite extrema; signature = (parity, species, unknown names, mode, count, ndims); trivial = one known field, default mode")
     chk.assumptions = ["menu's own pattern table (data) decides which printed class represents a field",
                        "marinate is exercised on 3-D inputs only (it builds the 3-D ghost map)"]
+    if replay and "option_set" in replay["scenario"]:
+        chk.executed("replay")
+        return option_sets_phase(chk)
     if replay:
         s = replay["scenario"]
         v = run_scenario(chk, s["sc"], s["cfgseed"], s["ndims"])
@@ -282,3 +331,4 @@ def run(chk, replay):
     # the command line layer (spec/Cli.tla): every subset of the tool's options typed to the real main(), API intercepted
     from harness import cli
     cli.phase(chk, "menu")
+    option_sets_phase(chk)
